@@ -136,6 +136,17 @@ def look_at(ch):
                     ch.notes_per_second(i, d)
                 except ValueError:
                     pass
+        import chartparse.instrument as I
+        for i in I.Instrument:
+            # look-ups of every instrument, present or not (an absent one raises and must leave nothing behind)
+            try:
+                ch[i]
+            except KeyError:
+                pass
+            try:
+                ch.notes_per_second(i, I.Difficulty.EXPERT)
+            except ValueError:
+                pass
         str(ch), repr(ch)
     except Exception:  # noqa: BLE001  (C19 judges these operations; here they only have to have happened)
         pass
